@@ -11,7 +11,7 @@ from vlib.build import build, children_of
 from vlib.stubs import Channel
 
 POOL = ["a", "b", "ü"]
-KINDS = ["k0", "k1"]
+KINDS = ["k0", ""]  # the empty kind is a legal kind string
 FLAVOURS = ["str", "strids", "obj", "typed", "derived"]
 CUSTOM_KEY_MAP = {"type": "t", "key": "y", "data_id": "i", "str": "s", "kind": "k"}
 CUSTOM_VALUE_MAP = {"type": ["o", "p"]}
